@@ -75,6 +75,31 @@ Theorem C11_close_reported : forall st st' o,
 Proof. exact tcpcl_close_stops. Qed.
 Print Assumptions C11_close_reported.
 
+(* Session level, sender: a Client whose peer announced Segment MRU [peer] >= 1 in SESS_INIT (the
+   Client itself announced [own]) sends the bundles [bss] by any number of possibly concurrent
+   Send calls. The transfer ids are pairwise distinct, and for every interleaving [tr] of the
+   transfers' XFER_SEGMENTs the peer-side checker holds: per transfer id the segments are at most
+   [peer] bytes, concatenate to the bundle's encoding, START exactly on the first and END exactly
+   on the last, and no segment belongs to anything else. *)
+Theorem C11_session_sender : forall own peer next bss tr,
+  1 <= peer -> Forall (fun bs => bs <> []) bss ->
+  MergeAll (tcc_session_segs own peer next bss) tr ->
+  NoDup (tcc_alloc_n next (length bss))
+  /\ tcc_chk_trace peer (tcc_session_xfers next bss) tr = true.
+Proof. exact tcc_session_sender_full. Qed.
+Print Assumptions C11_session_sender.
+
+(* Session level, receiver (Client.handle on top of the TransferManager): for any interleaving of
+   transfers with pairwise distinct ids there are exactly as many ReceivedBundle reports as
+   transfers, every bundle sent is reported and nothing else is. *)
+Theorem C11_session_reports : forall xs tr,
+  NoDup (map x_tid xs) -> Forall xfer_ok xs -> MergeAll (map xfer_segs xs) tr ->
+  length (tcc_reports tr) = length xs
+  /\ (forall x, In x xs -> In (x_bs x) (tcc_reports tr))
+  /\ (forall b, In b (tcc_reports tr) -> exists x, In x xs /\ b = x_bs x).
+Proof. exact tcc_reports_exact. Qed.
+Print Assumptions C11_session_reports.
+
 (* non-vacuity *)
 Example C11_example_divisor :
   segments [10; 11; 12; 13; 14; 15] 3 7 = [mkSeg 2 7 [10; 11; 12]; mkSeg 1 7 [13; 14; 15]]
@@ -91,6 +116,12 @@ Proof.
   change (segments [9; 8; 7] 1 5) with [mkSeg 2 5 [9]; mkSeg 0 5 [8]; mkSeg 1 5 [7]].
   eapply ma_cons; [eapply ma_cons; [apply ma_nil|]|]; repeat constructor.
 Qed.
+Example C11_example_session : tcc_alloc_n 0 3 = [0; 1; 2]
+  /\ tcc_chk_trace 2 (tcc_session_xfers 0 [[1; 2; 3]; [9; 8]]) [mkSeg 2 0 [1; 2]; mkSeg 3 1 [9; 8]; mkSeg 1 0 [3]] = true
+  /\ tcc_chk_trace 2 (tcc_session_xfers 0 [[1; 2; 3]; [9; 8]]) [mkSeg 3 0 [1; 2; 3]; mkSeg 3 1 [9; 8]] = false
+  /\ tcc_chk_trace 2 [(0, [1; 2; 3]); (0, [9; 8])] [mkSeg 3 0 [1; 2; 3]; mkSeg 3 0 [9; 8]] = false
+  /\ tcc_reports [mkSeg 2 0 [1; 2]; mkSeg 3 1 [9; 8]; mkSeg 1 0 [3]] = [[9; 8]; [1; 2; 3]].
+Proof. exact tcc_session_example. Qed.
 Example C11_example_send :
   let evs := [SeStep; SeAck 2; SeStep; SeAck 4; SeStep; SeRecvLen] in
   forallb (honest_event (segments [1; 2; 3; 4] 2 0)) evs = true
